@@ -1587,7 +1587,11 @@ func checkC19Numeric(c *Ctx) {
 		case len(und) > 0:
 			c.undecided(rule, name+"() ("+pos+"), clause \""+clauseText+"\": "+und[0])
 		default:
-			c.ob(rule, key, pos, true, "holds in each of the nine classes, every step exact in binary64")
+			how := "holds in each of the nine classes, every step exact in binary64"
+			if strings.Contains(clauseText, "real-number model") {
+				how = "holds in each of the nine classes of x·10^n for n = 0..8, over the reals (the rounding of x·10^n and of the division is not modelled)"
+			}
+			c.ob(rule, key, pos, true, how)
 		}
 	}
 	verdictsFor := func(rs []nResult, f func(r nResult) nVerdict) ([]nVerdict, []nRegion) {
